@@ -354,7 +354,8 @@ class ReorgDriver(IndexDriver):
             self.res.notes.append(f'shutdown raised {ex[1]!r}')
             self.probe('shutdown.exception.' + type(ex[1]).__name__)
         o = dict(op='reopen_audit', props=('C06',))
-        if info.get('bp_height') is not None and info.get('ok'):
+        clean = bool(ex) and ex[0] == 'ok'
+        if info.get('bp_height') is not None and (info.get('ok') or clean):
             o.update(expect_height=info['bp_height'],
                      why='the block processor had completed blocks up to')
         self.op_reopen_audit(o)
@@ -678,7 +679,7 @@ class ReorgFamily(Family):
         r = rng.random()
         at = round(rng.uniform(0.0, at_max), 3) if rng.random() < 0.7 else 0
         if r < 0.45:
-            d = rng.choice([1, 1, 2, 2, 3, 5, k['reorg_limit']])
+            d = rng.choice([1, 1, 2, 2, 3, 5, 6, 8, k['reorg_limit']])
             extra = 1 if rng.random() < 0.8 else rng.choice([0, -1, 2, 3])
             return dict(op='fork', depth=d, extra=extra, ntx=ntx_list(rng, 4),
                         remine=rng.choice([0.0, 0.5, 1.0]), at=at, seed=rng.getrandbits(32))
@@ -692,6 +693,9 @@ class ReorgFamily(Family):
         if rng.random() < 0.5:
             plan.append(dict(op='sync'))
         for _ in range(rng.randint(1, 3)):
+            if rng.random() < 0.3:
+                # a clean restart first: block files are gone, caches are cold, undo rows were pruned
+                plan.append(dict(op='restart'))
             for _ in range(rng.randint(1, 4)):
                 plan.append(self._event(rng, k))
             if rng.random() < 0.3:
@@ -822,8 +826,8 @@ class UndoFamily(ReorgFamily):
                 plan.append(dict(op='stop'))
                 plan.append(dict(op='open_check'))
             elif r < 0.3:
-                plan.append(dict(op='crash_when', cond='anyop', skip=rng.randint(0, 60), window=5.0,
-                                 until_caught_up=False))
+                plan.append(dict(op='crash_when', cond=rng.choice(['flushop', 'flushop', 'anyop']),
+                                 skip=rng.randint(0, 40), window=8.0, until_caught_up=False))
                 plan.append(dict(op='open_check'))
         plan.append(dict(op='sync', keep=True))
         plan.append(dict(op='undo_check'))
